@@ -1,5 +1,6 @@
 import PsVerif.Proofs.EexecStream
 import PsVerif.Proofs.EexecInterp
+import PsVerif.Model.Init
 /-!
 # C05 — `eexec`: byte stream, tokens, interpreter
 
@@ -62,6 +63,18 @@ plaintexts, prefixes and layouts, no length bound. Proofs are in `Proofs/EexecSt
    FINDING 2), (b) its scanner never runs into the end of the plaintext (`scanToken`, the start check and
    `readstring` never hit the end: the plaintext closes the file before it ends). (a) is slightly stronger than
    needed: an `eexec` call that fails the same way on both sides (operand not a file) is excluded as well.
+
+7. Column and structured comments (after the repair of `BeginEexec`: `Col = 0`, `crSeen = false` when the section
+   is entered). The state `afterBegin …` that `beginEexec` leaves has column 0 and `crSeen` off whatever the four
+   lead bytes decrypt to; the plain scanners the theorems compare with (`plainOf s1 plain`, `plainStart …`,
+   `plainStart0 …`) stand at column 0 with `crSeen` off; `Sim`/`SimL` contain agreement on `col`, `crSeen` and the
+   collected structured comments `dsc`, and no theorem needs a hypothesis about a DSC line at the start of the
+   plaintext. `SimL dl` is `Sim` with the line counters differing by the constant `dl` (`Sim = SimL 0`; the line
+   counter is never read, and it is the one thing that still depends on the lead bytes: `Line` is not reset).
+   `eexec_dsc_prefix_independent`, `eexec_dsc_prefix_independent_hex`: for two legal lead-byte quadruples and the same
+   plaintext the operator returns the same result and the same interpreter state up to the scanner, the scanners
+   agree in peek buffer, column, `crSeen`, `dsc`, error, fault, mode, and are equal up to line counter and cipher
+   register when the section was closed at the end of the plaintext (`PrefixIndependent`).
 
 ## Missing
 
@@ -184,7 +197,7 @@ theorem eexec_read_all_then_close (mode : Nat) (cipher plain rest : List UInt8) 
   obtain ⟨s', sp', t, h1, h2, h3, h4, _, _, _, _⟩ :=
     eexec_stream mode cipher plain rest s1 hlen hpk hsim plain.length (Nat.le_refl _)
   have hend : sp'.src = [] := by rw [h4]; simp
-  exact ⟨s', _, by simpa using h1, h2.endEexec_at_end hend, h2.eexec_p, h2.reg_p, h3, rfl⟩
+  exact ⟨s', _, by simpa using h1, Sim.endEexec_at_end h2 hend, h2.eexec_p, h2.reg_p, h3, rfl⟩
 
 /-- **C05, looking past the end (binary)**: see the FINDING in the header -/
 theorem eexec_peek_past_end_binary {cipher rest : List UInt8} {se sp : Scanner} (h : Sim 2 cipher rest se sp)
@@ -225,7 +238,7 @@ theorem eexec_fuel_independent (n f f' : Nat) (hf : n < f) (hf' : n < f') :
 /-- **C05, interpreter**: every function of the interpreter's mutual block, run on states that differ only in
 `Sim`-related scanners, returns the same result and states that again differ only in `Sim`-related scanners, as
 long as the plain run evaluates no `Bad` call (`AllSim` lists the thirteen statements) -/
-theorem eexec_interp_sim (mode : Nat) (cipher rest : List UInt8) (m fuel : Nat) : AllSim mode cipher rest fuel m :=
+theorem eexec_interp_sim (dl mode : Nat) (cipher rest : List UInt8) (m fuel : Nat) : AllSim dl mode cipher rest fuel m :=
   allSim m fuel
 
 /-- **C05 on the model, binary sections** (see item 6 of the header for the reading) -/
@@ -277,6 +290,99 @@ theorem eexec_closed_at_end {mode : Nat} {cipher rest : List UInt8} {k : Nat} {b
     closeSection k bF rF seF =
       okS { bF with vm := truncDictStack bF.vm k, scanner := { bF.scanner with src := rest, r := seF.r } } :=
   closeSection_at_end h hend hr
+
+/-! ## Independence of the lead bytes (column, structured comments) -/
+
+/-- **C05, the four lead bytes do not matter (binary form).** `sc1`, `sc2`: the same clear scanner (`core`:
+everything but the pending input) standing before `ws ++ encrypt (pre_i ++ plain) ++ rest` for two legal
+prefixes; `a0` the interpreter state about to execute `eexec`. Then `PrefixIndependent`: same result, same
+interpreter state up to the scanner (so the same operand stack, heap, `numOps`, and the same collected `State.dsc`),
+scanners agreeing in `peek`, `col`, `crSeen`, `dsc`, `err`, `fault`, `eexec`, `regurgitate`, and — section closed,
+plaintext decrypted completely — scanners equal up to `line` and the cipher register `r`. -/
+theorem eexec_dsc_prefix_independent (fuel m : Nat) (a0 : State) (st : List Obj) (sc1 sc2 : Scanner)
+    (ws pre1 pre2 plain rest : List UInt8)
+    (hst : a0.vm.stack = .file :: st) (hdepth : a0.scannerDepth ≠ 0)
+    (hcore : core sc1 = core sc2) (hc : Clear sc1)
+    (hpk1 : sc1.peek.length ≤ 4) (hpk2 : sc2.peek.length ≤ 4) (hpre1 : pre1.length = 4) (hpre2 : pre2.length = 4)
+    (hws : ∀ x ∈ ws, isEexecSpace x = true)
+    (hl1 : BinaryLegal (encrypt eexecR (pre1 ++ plain))) (hl2 : BinaryLegal (encrypt eexecR (pre2 ++ plain)))
+    (hs1 : sc1.peek ++ sc1.src = ws ++ binaryLayout (encrypt eexecR (pre1 ++ plain)) ++ rest)
+    (hs2 : sc2.peek ++ sc2.src = ws ++ binaryLayout (encrypt eexecR (pre2 ++ plain)) ++ rest)
+    (hsafe : Safe (.sRun fuel m (plainState a0 st (plainStart0 sc1 ws plain)))) :
+    PrefixIndependent fuel m a0 sc1 sc2 (scanRun fuel m (plainState a0 st (plainStart0 sc1 ws plain))) :=
+  eexec_prefix_independent_binary fuel m a0 st sc1 sc2 ws pre1 pre2 plain rest hst hdepth hcore hc hpk1 hpk2 hpre1 hpre2
+    hws hl1 hl2 hs1 hs2 hsafe
+
+/-- **C05, the four lead bytes do not matter (hexadecimal form)**, nor do the layouts `t1`, `t2` -/
+theorem eexec_dsc_prefix_independent_hex (fuel m : Nat) (a0 : State) (st : List Obj) (sc1 sc2 : Scanner)
+    (ws pre1 pre2 plain t1 t2 rest : List UInt8)
+    (hst : a0.vm.stack = .file :: st) (hdepth : a0.scannerDepth ≠ 0)
+    (hcore : core sc1 = core sc2) (hc : Clear sc1)
+    (hpk1 : sc1.peek.length ≤ 4) (hpk2 : sc2.peek.length ≤ 4) (hpre1 : pre1.length = 4) (hpre2 : pre2.length = 4)
+    (hws : ∀ x ∈ ws, isEexecSpace x = true)
+    (hl1 : HexLayout (encrypt eexecR (pre1 ++ plain)) t1) (hl2 : HexLayout (encrypt eexecR (pre2 ++ plain)) t2)
+    (hs1 : sc1.peek ++ sc1.src = ws ++ t1 ++ rest) (hs2 : sc2.peek ++ sc2.src = ws ++ t2 ++ rest)
+    (hsafe : Safe (.sRun fuel m (plainState a0 st (plainStart0 sc1 ws plain)))) :
+    PrefixIndependent fuel m a0 sc1 sc2 (scanRun fuel m (plainState a0 st (plainStart0 sc1 ws plain))) :=
+  eexec_prefix_independent_hex fuel m a0 st sc1 sc2 ws pre1 pre2 plain t1 t2 rest hst hdepth hcore hc hpk1 hpk2 hpre1
+    hpre2 hws hl1 hl2 hs1 hs2 hsafe
+
+/-- in particular: the collected structured comments and the column are the same -/
+theorem PrefixIndependent.dsc_col {fuel m : Nat} {a0 : State} {sc1 sc2 : Scanner} {pF : State × Res}
+    (h : PrefixIndependent fuel m a0 sc1 sc2 pF) :
+    (callBuiltin (fuel + 1) m { a0 with scanner := sc1 } "eexec").1.dsc =
+      (callBuiltin (fuel + 1) m { a0 with scanner := sc2 } "eexec").1.dsc ∧
+    (callBuiltin (fuel + 1) m { a0 with scanner := sc1 } "eexec").1.scanner.dsc =
+      (callBuiltin (fuel + 1) m { a0 with scanner := sc2 } "eexec").1.scanner.dsc ∧
+    (callBuiltin (fuel + 1) m { a0 with scanner := sc1 } "eexec").1.scanner.col =
+      (callBuiltin (fuel + 1) m { a0 with scanner := sc2 } "eexec").1.scanner.col ∧
+    (callBuiltin (fuel + 1) m { a0 with scanner := sc1 } "eexec").1.scanner.crSeen =
+      (callBuiltin (fuel + 1) m { a0 with scanner := sc2 } "eexec").1.scanner.crSeen :=
+  ⟨by rw [h.2.1], h.2.2.1.2.2.2.1, h.2.2.1.2.1, h.2.2.1.2.2.1⟩
+
+/-- the relation `beginEexec` establishes: column 0, `crSeen` off, whatever the lead bytes (binary form) -/
+theorem eexec_begin_col0 (s0 : Scanner) (ws pre plain rest : List UInt8) (hc : Clear s0) (hpk : s0.peek.length ≤ 4)
+    (hpre : pre.length = 4) (hws : ∀ a ∈ ws, isEexecSpace a = true)
+    (hlegal : BinaryLegal (encrypt eexecR (pre ++ plain)))
+    (hs : s0.peek ++ s0.src = ws ++ binaryLayout (encrypt eexecR (pre ++ plain)) ++ rest) :
+    ∃ s1, beginEexec s0 = (.ok (), s1) ∧ s1.col = 0 ∧ s1.crSeen = false ∧ s1.dsc = s0.dsc ∧
+      (plainStart0 s0 ws plain).col = 0 ∧ (plainStart0 s0 ws plain).crSeen = false ∧
+      SimL (prefixLines s0 ws pre) 2 (encrypt eexecR (pre ++ plain)) rest s1 (plainStart0 s0 ws plain) := by
+  obtain ⟨s1, hb, hs1, hsim⟩ := eexec_begin_binary0 s0 ws pre plain rest hc hpk hpre hws hlegal hs
+  refine ⟨s1, hb, ?_, ?_, ?_, rfl, rfl, hsim⟩
+  · rw [hs1]; rfl
+  · rw [hs1]; rfl
+  · rw [hsim.dsc_eq]; unfold plainStart0 ov; rw [bumps_frame]
+
+/-! ### the concrete case of the repair
+
+plaintext `%%Foo: bar␤%%Baz: 1␤1 2 add mark currentfile closefile␤`, hexadecimal section in a complete program, lead
+bytes `F1 'x' 'y' 'z'` (before the repair: `Foo` was lost, the first line started in column 4) and `F1 'x' 'y' LF` -/
+
+def bytesOf (s : String) : List UInt8 := s.toList.map (fun c => UInt8.ofNat c.toNat)
+def hexDigit (n : Nat) : UInt8 := if n < 10 then UInt8.ofNat (48 + n) else UInt8.ofNat (87 + n)
+def hexOf (c : List UInt8) : List UInt8 := c.flatMap (fun b => [hexDigit (b.toNat / 16), hexDigit (b.toNat % 16)])
+def dscPlain : List UInt8 := bytesOf "%%Foo: bar\n%%Baz: 1\n1 2 add mark currentfile closefile\n"
+def dscProgram (lead : List UInt8) : List UInt8 :=
+  bytesOf "%!\ncurrentfile eexec\n" ++ hexOf (encrypt eexecR (lead ++ dscPlain)) ++ bytesOf "\n" ++
+    List.replicate 64 48 ++ bytesOf "\ncleartomark 99\n"
+
+/-- both lead-byte quadruples: both structured comments are recorded (checked by the kernel) -/
+theorem exDscLeadBytes :
+    (execute 10000 0 newInterpreter (dscProgram [0xF1, 120, 121, 122]) none).1.dsc = [("Foo", "bar"), ("Baz", "1")] ∧
+    (execute 10000 0 newInterpreter (dscProgram [0xF1, 120, 121, 10]) none).1.dsc = [("Foo", "bar"), ("Baz", "1")] := by
+  decide +kernel
+
+#guard (execute 10000 0 newInterpreter (dscProgram [0xF1, 120, 121, 122]) none).2 == .ok
+#guard (execute 10000 0 newInterpreter (dscProgram [0xF1, 120, 121, 122]) none).1.dsc == [("Foo", "bar"), ("Baz", "1")]
+#guard (execute 10000 0 newInterpreter (dscProgram [0xF1, 120, 121, 10]) none).1.dsc == [("Foo", "bar"), ("Baz", "1")]
+#guard (execute 10000 0 newInterpreter (dscProgram [0xF1, 120, 121, 122]) none).1.vm.stack ==
+  (execute 10000 0 newInterpreter (dscProgram [0xF1, 120, 121, 10]) none).1.vm.stack
+#guard (execute 10000 0 newInterpreter (dscProgram [0xF1, 120, 121, 122]) none).1.scanner.col ==
+  (execute 10000 0 newInterpreter (dscProgram [0xF1, 120, 121, 10]) none).1.scanner.col
+-- the line counter is the one field that still depends on the lead bytes (`Line` is not reset)
+#guard (execute 10000 0 newInterpreter (dscProgram [0xF1, 120, 121, 122]) none).1.scanner.line + 1 ==
+  (execute 10000 0 newInterpreter (dscProgram [0xF1, 120, 121, 10]) none).1.scanner.line
 
 /-! ## Non-vacuity: a concrete plaintext, prefix and layouts -/
 
@@ -593,5 +699,10 @@ example : ∃ seF : Scanner, callBuiltin (8 + 1) 0 exA3 "eexec" =
 #print axioms eexec_closed_at_end
 #print axioms exSafe
 #print axioms exSafe3
+#print axioms eexec_dsc_prefix_independent
+#print axioms eexec_dsc_prefix_independent_hex
+#print axioms PrefixIndependent.dsc_col
+#print axioms eexec_begin_col0
+#print axioms exDscLeadBytes
 
 end PsVerif.Props.C05
